@@ -14,13 +14,13 @@ def getNatLLL (j : Json) (k : String) : Except String (List (List (List Nat))) :
   a.toList.mapM asNatLL
 
 /-- all `k`-tuples over `0..3` in lexicographic order -/
-def lexTuples : Nat → List (List Nat)
+def lexTuples (A : Nat) : Nat → List (List Nat)
   | 0 => [[]]
-  | k + 1 => (List.range 4).flatMap (fun d => (lexTuples k).map (fun t => d :: t))
+  | k + 1 => (List.range A).flatMap (fun d => (lexTuples A k).map (fun t => d :: t))
 
-def kmerJ (k : Nat) (counts : List Nat) : Json :=
-  Json.arr ((lexTuples k).filterMap (fun t =>
-    let c := counts.getD (hashLE t) 0
+def kmerJ (A k : Nat) (counts : List Nat) : Json :=
+  Json.arr ((lexTuples A k).filterMap (fun t =>
+    let c := counts.getD (hashLE A t) 0
     if c > 0 then some (Json.arr #[natList t, nat c]) else none)).toArray
 
 def groupsJ (gs : List (Nat × List (Nat × Nat))) : Json :=
@@ -90,10 +90,37 @@ def handle (op : String) (j : Json) : Except String Json := do
   | "count_kmers" =>
     let cs ← getNatLLL j "chunks"
     let k ← getNat j "k"
-    let m := match countKmersStream k cs with
-      | .arr v => kmerJ k v
+    let A := match j.getObjVal? "A" with
+      | .ok v => (v.getNat?.toOption).getD 4
+      | .error _ => 4
+    let m := match countKmersStream A k cs with
+      | .arr v => kmerJ A k v
       | .zero => errJ "empty"
-    pure (reply m (some (kmerJ k (kmerCounts k cs.flatten))))
+    pure (reply m (some (kmerJ A k (kmerCounts A k cs.flatten))))
+  | "mean_axis0" =>
+    let w ← getNat j "w"
+    let cs ← (← getArr j "chunks").mapM (fun ch => do
+      let rows ← ch.getArr?
+      rows.toList.mapM asIntList)
+    let m := match meanColsStream w cs with
+      | .arr v => intList v
+      | .zero => errJ "empty"
+    pure (reply m (some (intList (sumAndNCols w cs.flatten))))
+  | "rowmean" =>
+    -- `streamable()` without reduction: one result per chunk; modelled on the row sums (the division is runtime)
+    let cs ← (← getArr j "chunks").mapM (fun ch => do
+      let rows ← ch.getArr?
+      rows.toList.mapM asIntList)
+    let f := fun (rows : List (List Int)) => rows.map List.sum
+    pure (reply (intList (mapStream f cs).flatten) (some (intList (f cs.flatten))))
+  | "quantile" =>
+    let cs ← getNatListList j "chunks"
+    let p ← getNat j "qp"
+    let d ← getNat j "qd"
+    let m := match quantileStream cs p d with
+      | some q => nat q
+      | none => errJ "empty"
+    pure (reply m (some (nat (quantileOf (bincount 0 cs.flatten) p d))))
   | "groupby" =>
     let cs ← getPairLL j "chunks"
     let fast ← getBool j "fast"
